@@ -225,6 +225,68 @@ def coq_obs(cfg, ref, fp, r):
             % (cs, site[1], fk, cols, oc, r.cp))
 
 
+def limiter_cases(rnd, wd, tier):
+    """The library's own interrupting wrapper (EvaluationLimiter) as the source of the interrupt: every budget that
+    expires at a misfit or a gradient call of a short run; the interrupted run is followed at once by a second run
+    of the same sampler on the same (limited) target."""
+    import contextlib
+    import io
+    import os
+    import hmclab
+    D, S = hmclab.Distributions, hmclab.Samplers
+    out, n = [], 0
+    mean, var = numpy.array([[0.5], [-0.25]]), numpy.array([[1.0], [2.0]])
+    for kind in ("hmc", "rwmh"):
+        for gc in (1, 2):
+            steps = rnd.choice([1, 2, 3])
+            P, seed_ = 6, rnd.randrange(1000)
+            kw = dict(proposals=P, initial_model=numpy.zeros((2, 1)), overwrite_existing_file=True, disable_progressbar=True,
+                      stepsize=0.3, **({"amount_of_steps": steps, "integrator": rnd.choice(["lf", "3s", "4s"])} if kind == "hmc" else {}))
+            cls = S.HMC if kind == "hmc" else S.RWMH
+            with contextlib.redirect_stdout(io.StringIO()), numpy.errstate(all="ignore"):
+                cls(seed=seed_).sample(os.path.join(wd, "lim_ref.h5"), D.Normal(mean.copy(), var.copy()), **kw)
+                with hmclab.Samples(os.path.join(wd, "lim_ref.h5")) as sref:
+                    ref = numpy.array(sref.numpy)
+            limits = range(1, 30) if tier != "quick" else sorted(rnd.sample(range(1, 30), 10))
+            for limit in limits:
+                n += 1
+                Lim = D.EvaluationLimiter_ClassConstructor(D.Normal, limit, gradient_count=gc)
+                target = Lim(mean.copy(), var.copy())
+                smp = cls(seed=seed_)
+                desc = f"{kind} ({kw.get('integrator', '-')}, {steps} steps), EvaluationLimiter(limit={limit}, gradient_count={gc})"
+                cols = []
+                for run_no in (1, 2):
+                    f = os.path.join(wd, f"lim_{run_no}.h5")
+                    try:
+                        with contextlib.redirect_stdout(io.StringIO()), numpy.errstate(all="ignore"):
+                            smp.sample(f, target, **kw)
+                    except BaseException as e:  # noqa
+                        out.append((f"limiter-run{run_no}-raised", f"{desc}: run {run_no} on the same sampler and target raised {type(e).__name__} instead of returning"))
+                        break
+                    try:
+                        with hmclab.Samples(f) as sm:
+                            a = numpy.array(sm.numpy)
+                            with contextlib.redirect_stdout(io.StringIO()):
+                                sm.print_details()
+                    except ValueError as e:
+                        if "burn-in" in str(e).lower():
+                            break            # interrupted before the first column: the documented refusal to read an empty chain
+                        out.append(("limiter-file-unreadable", f"{desc}: file of run {run_no} unreadable: {type(e).__name__}: {e}"))
+                        break
+                    except BaseException as e:  # noqa
+                        out.append(("limiter-file-unreadable", f"{desc}: file of run {run_no} unreadable: {type(e).__name__}: {e}"))
+                        break
+                    cols.append(a)
+                    if run_no == 1 and not (a.shape[1] <= ref.shape[1] and a.tobytes() == ref[:, :a.shape[1]].tobytes()):
+                        out.append(("limiter-not-a-prefix", f"{desc}: the {a.shape[1]} stored columns are not the leading columns of the uninterrupted run"))
+                    if run_no == 1 and a.shape[1] == P:
+                        break        # the budget did not expire inside the chain: nothing was interrupted, the wrapper keeps counting
+                if len(cols) == 2 and cols[0].shape != cols[1].shape:
+                    out.append(("limiter-budget-not-restarted", f"{desc}: the second run stored {cols[1].shape[1]} columns, the first {cols[0].shape[1]} (same budget, same work per proposal)"))
+    numpy.seterr(all="warn")
+    return out, n
+
+
 def run(tier, seed):
     rnd = random.Random(seed * 7919 + 8)
     nruns = 14 if tier == "quick" else 120
@@ -266,6 +328,13 @@ def run(tier, seed):
             if n < 2:
                 samples.append({"run": {k: cfg[k] for k in ("kind", "P", "t", "backend")}, "fault_points": len(plan),
                                 "first_faults": [f for f in plan[:4]]})
+        lim_probs, lim_n = limiter_cases(rnd, wd, tier)
+        dist["evaluation_limiter_runs"] = lim_n
+        seen_keys = set()
+        for key, what in lim_probs:
+            if key not in seen_keys or len(seen_keys) < 6:
+                violations.append(Violation(key, what, {"limiter": what}))
+            seen_keys.add(key)
     finally:
         shutil.rmtree(wd, ignore_errors=True)
     failing, errors = common.eval_cases("C08", sr.HEADER, coq, "fc_check", shard=2)
@@ -285,7 +354,8 @@ def run(tier, seed):
                 "rotating exception type (ValueError, RuntimeError subclass, user TimeoutError, ZeroDivisionError, SystemExit, BaseException "
                 "subclass) at every call boundary into target/mass matrix, at entry and exit of samples.append of every stored proposal, and "
                 "a max_time time-out after every proposal (quick tier: at most 60 fault points per run, all first-proposal points kept); each "
-                "faulty run is followed by a second run on the same object; non-trivial = fault strictly inside a proposal",
+                "faulty run is followed by a second run on the same object; the library's EvaluationLimiter with budgets 1..29 (gradient_count 1, 2) as "
+                "interrupt source, each followed by a second run on the same sampler and target; non-trivial = fault strictly inside a proposal",
         "samples": samples, "violations": violations,
         "traces_validated_against_impl": len(coq) - len(failing),
         "coverage": {"distribution": dist, "correspondence_failures": len(failing), "exhaustive_per_run": tier != "quick"},
